@@ -11,6 +11,8 @@ import (
 	"runtime/debug"
 	"strings"
 
+	tmtypes "github.com/tendermint/tendermint/types"
+
 	"github.com/pokt-network/pocket-core/codec"
 	appsTypes "github.com/pokt-network/pocket-core/x/apps/types"
 	nodesTypes "github.com/pokt-network/pocket-core/x/nodes/types"
@@ -30,7 +32,7 @@ type Script struct {
 	// GenesisJSON: raw exported application state used instead of the generated genesis (export/import checks)
 	GenesisJSON string `json:"genesis_json,omitempty"`
 	PerTx       bool   `json:"per_tx,omitempty"`
-	PerTxFrom int64 `json:"per_tx_from,omitempty"`
+	PerTxFrom   int64  `json:"per_tx_from,omitempty"`
 }
 
 type Step struct {
@@ -63,6 +65,7 @@ type Record struct {
 	TxIndex  int       `json:"txi,omitempty"`
 	Snap     *Snapshot `json:"snap,omitempty"`
 	Off      *OffRes   `json:"off,omitempty"`
+	Dyn      *DynRes   `json:"dyn,omitempty"`
 	Export   string    `json:"export,omitempty"`
 	InitVals []ValUpd  `json:"init_vals,omitempty"`
 	Err      string    `json:"err,omitempty"`
@@ -251,7 +254,22 @@ func (e *Executor) RunBlockStep(st Step) {
 	}
 	at(-1)
 	trans := n.TransientCounts()
-	n.BeginBlock(*st.Block)
+	// transactions described as "dyn:{...}" are built now, from what is committed at this moment
+	blk := *st.Block
+	blk.Txs = append([]string{}, st.Block.Txs...)
+	for i, t := range blk.Txs {
+		if strings.HasPrefix(t, "dyn:") {
+			var d DynTx
+			if err := json.Unmarshal([]byte(t[4:]), &d); err != nil {
+				panic("bad dyn tx: " + err.Error())
+			}
+			bz, dr := n.ResolveDyn(d, i)
+			dr.Hash = hex.EncodeToString(tmtypes.Tx(bz).Hash())
+			blk.Txs[i] = hex.EncodeToString(bz)
+			e.Out(Record{Kind: "dyn", TxIndex: i, Dyn: &dr})
+		}
+	}
+	n.BeginBlock(blk)
 	proposer := hex.EncodeToString(n.cur.block.Header.ProposerAddress)
 	perTx := e.PerTx && n.Height+1 >= e.PerTxFrom
 	midSnap := func() *Snapshot { // state is read from the working stores: the deliver context writes straight into them
@@ -282,6 +300,8 @@ func (e *Executor) RunBlockStep(st Step) {
 		snap = &Snapshot{Height: n.Height, Time: n.Time.Unix(), AppHash: hex.EncodeToString(n.AppHash), Digests: n.Digests()}
 	}
 	snap.Txs, snap.ValUpd, snap.Proposer, snap.TransientAtBegin = txs, upd, proposer, trans
+	snap.BlockHash = hex.EncodeToString(n.LastID.Hash)
+	snap.SessionSeed = n.sessionSeed(n.Height)
 	e.Out(Record{Kind: "block", Snap: snap})
 	at(len(st.Block.Txs) + 1)
 }
